@@ -243,6 +243,12 @@ def mark_fixed(fid, commit):
     f["commit"] = commit
     f.pop("switch", None)
 
+finding("C05-read-filter-temporary-reused", ["C05"],
+        "with an empty DATA item in the program a READ into a numeric target becomes 'READ tmp_1$ \\ RUN ecb_read_filter(tmp_1$, target)'; a string "
+        "function in the target's subscript ('READ P(LEN(HEX$(255)))') was given tmp_1$ as well and overwrote the value just read before the filter used it",
+        {"C05": [P([10, [LET(["arr", "P", [N(2)]], N(5))]], [20, [["read", [["arr", "P", [FN("LEN", FN("HEX$", N(255)))]]]]]], [30, [PR(["arr", "P", [N(2)]])]],
+                   [40, [["data", [["n", "77", 77], ["e"]]]]])]},
+        status="fixed", commit="d45f2c4")
 mark_fixed("C04-leading-unary-operand-dropped", "ea49ec4")
 mark_fixed("C15-hex-data-item-with-empty-item", "ebeb205")
 mark_fixed("C15-procedure-name-with-non-word-characters", "4836963")
